@@ -5,5 +5,5 @@ From Coq Require Import Extraction ExtrOcamlBasic.
 From Iodine Require Import Codec.
 Extraction Language OCaml.
 Set Extraction Optimize.
-Extraction "extracted/model.ml" Codec.encode Codec.decode Codec.b32 Codec.b64 Codec.b64u Codec.b128
+Extraction "extracted/model_c07.ml" Codec.encode Codec.decode Codec.b32 Codec.b64 Codec.b64u Codec.b128
   Codec.b32_5to8 Codec.b32_8to5 Codec.chunks Codec.toupper.
